@@ -54,6 +54,17 @@ def main():
         rows.append('| %s | %s | %d | %d | %d |' % (p, ', '.join('%s (%d)' % (k, v['instances']) for k, v in sorted(rules.items(), key=lambda kv: int(kv[0][1:]))),
                                                ev['coverage']['obligations'], mc.get(p, 0), len(ev['coverage'].get('known_findings_matched', []))))
     design = replace_block(design, 'RULE-TABLE', '\n'.join(rows))
+    # rule catalogue: every registered rule with the clause it decides
+    cat = []
+    for i in range(1, 21):
+        p = 'C%02d' % i
+        ev = json.load(open(os.path.join(HERE, 'evidence', p + '.json')))
+        cat.append('**%s** (%d obligations on today\'s tree)' % (p, ev['coverage']['obligations']))
+        cat.append('')
+        for k, v in sorted(ev['coverage']['rules'].items(), key=lambda kv: int(re.sub(r'\D', '', kv[0]) or 0)):
+            cat.append('* %s — %s (%d instances, floor %s)' % (k, str(v.get('doc', '')).replace('\n', ' '), v['instances'], v.get('floor', '-')))
+        cat.append('')
+    design = replace_block(design, 'RULE-CATALOGUE', '\n'.join(cat))
     open(os.path.join(HERE, 'DESIGN.md'), 'w').write(design)
     print('DESIGN.md tables refreshed: %d/%d seeds caught' % (caught, len(res)))
 
